@@ -233,6 +233,12 @@ class Ctx:
     def atom(self, key):
         return self.env.get(('atom', key))
 
+    def atoms(self):
+        return {k[1]: v for k, v in self.env.items() if k[0] == 'atom'}
+
+    def resolve_call(self, e):
+        return self.ex.resolve_call(e, self.env)
+
     def report(self, msg, line=None, key=None, extra=None):
         self.ex._report(self, msg, line, key, extra)
 
@@ -268,8 +274,10 @@ class Explorer:
         self.nstates = 0
         self.nedges = 0
         self.call_names = {}
+        self.id2call = {}
         for b, i, c in fn.calls():
             self.call_names[c['id']] = c.get('callee')
+            self.id2call[c['id']] = c
         # nested calls (arguments) appear as their own events, so fn.calls() has all
         self.tracked = self._select_tracked(track)
 
@@ -374,6 +382,17 @@ class Explorer:
             v = ev['var']
             if v['id'] in self.tracked:
                 setv(('v', v['id']), self._abstract(ev.get('init'), env))
+        if self.atom_key is not None:
+            wr = set()
+            for lhs, how, rhs in written_lvalues(ev):
+                if is_ref(lhs) and 'id' in lhs and how != 'decl':
+                    wr.add(lhs['id'])
+            if wr:
+                cur = new if new is not None else env
+                for key in list(cur):
+                    if key[0] == 'atom' and isinstance(key[1], tuple) and key[1] \
+                            and isinstance(key[1][-1], frozenset) and (key[1][-1] & wr):
+                        setv(key, None)
         return new if new is not None else env
 
     def _eval_atom(self, atom, sense, env):
@@ -461,10 +480,23 @@ class Explorer:
             elif l.get('k') == 'call' and is_int(r) and self._want_call(l):
                 new[('res', l['id'])] = ('eq' if sense else 'ne', r['v'])
         if self.atom_key is not None:
-            key = self.atom_key(atom)
+            key = self.atom_key(atom, lambda e: self.resolve_call(e, env))
             if key is not None:
                 new[('atom', key)] = sense
         return new
+
+    def resolve_call(self, e, env):
+        """The call expression that e denotes on this path: e itself if it is a
+        call, or the call a tracked variable is currently bound to."""
+        if e is None:
+            return None
+        if e.get('k') == 'call':
+            return e
+        if is_ref(e) and e.get('id') in self.tracked:
+            v = env.get(('v', e['id']))
+            if v and v[0] == 'call':
+                return self.id2call.get(v[1])
+        return None
 
     def _want_call(self, c):
         if self.calls is None:
